@@ -9,6 +9,8 @@ Streams (model `Wpull.HttpWire` vs the real code in the wpull tree under test):
            is logged, the model replays the exchange from the byte stream + the logged
            read sizes and must make the same calls and end in the same
            (status, fields, body, error class, consumed, closed, notified)
+  timeout  ONE Connection(timeout=...) object through stalls (read timeout), closes and
+           reconnects: a stall ends in NetworkTimedOut, later exchanges are unaffected
   session  the REAL Client/Session on a reactive server (response k+1 is sent only after
            request k+1 arrived), sequences of exchanges on persistent connections
 Oracles (independent of the model): segmentation independence of the real outputs;
@@ -32,7 +34,8 @@ RULE = ('decode: grammar-generated responses (status codes incl. 1xx/204/304, HE
         '(keep_alive x ignore_length, all four, every message) x variants '
         '(complete, complete+surplus, truncated at a random / every position, peer keeps the connection open) x '
         'segmentations (none, random, every single cut, all single bytes); session: sequences of 2-5 such messages on a '
-        'reactive server. non-trivial = a response head was at least attempted (non-empty stream); distinct by '
+        'reactive server; timeout: 15 plans on one Connection(timeout) object (stall / ok / Connection: close / until-close / second stall). '
+        'non-trivial = a response head was at least attempted (non-empty stream); distinct by '
         '(stream bytes, eof, request, options, segmentation)')
 TRUSTED = ['asyncio.StreamReader read/readline semantics are mirrored (differential stream "sr")',
            'CPython str/bytes/int/re primitives are mirrored (differential stream "py")',
@@ -40,7 +43,9 @@ TRUSTED = ['asyncio.StreamReader read/readline semantics are mirrored (different
            'the content decoder (zlib; property C19) is a parameter: its logged results are replayed by the model']
 ASSUMPTIONS = ['header text is latin-1 (code points < 256); request methods are ASCII',
                'Stream.read_body is called with raw=False (Session.download default)',
-               'timeouts, TLS and the kernel are outside the model; a blocked read is reported as "stalled"']
+               'TLS and the kernel are outside the model; the model has no clock: a blocked read is "stalled", which the timeout '
+               'stream equates with NetworkTimedOut of a Connection that has a read timeout (real time: 0.12 s timer, repeated at 3x '
+               'before a well-formed exchange that timed out counts as a failure)']
 UNPROVED = ["at EOF the reader never keeps waiting, i.e. the non-success of truncation_is_error is an *error* (oracle kind truncation-blocks checks it on the real code; the theorem shows: never a success)"]
 
 
@@ -503,6 +508,88 @@ def stream_session(ctx, seqs):
                     'connections': [r['conn'] for r in metas[0][1]]})
 
 
+# ------------------------------------------------------------------ timeout stream
+def timeout_cases():
+    """Sequences on ONE Connection object with a read timeout: well-formed exchanges, an exchange
+    that stalls mid-message (timer fires), well-formed exchanges after the reconnect - also after
+    an ordinary close -, and a second stall later."""
+    ok1 = _mk(b'HTTP/1.1 200 OK\r\nContent-Length: 3\r\n\r\n', b'abc')
+    ok2 = _mk(b'HTTP/1.1 200 OK\r\nTransfer-Encoding: chunked\r\n\r\n', b'2\r\nhi\r\n0\r\n\r\n', b'hi', framing='chunked')
+    okc = _mk(b'HTTP/1.1 200 OK\r\nConnection: close\r\nContent-Length: 2\r\n\r\n', b'zz')
+    okclose = _mk(b'HTTP/1.0 200 OK\r\n\r\n', b'until close', framing='close')
+    stalls = [(ok1, 10), (ok1, len(ok1.head) + 1), (ok2, len(ok2.head) + 4), (ok2, len(ok2.message) - 2), (okclose, len(okclose.message))]
+    plans = []
+    for si, (sm, cut) in enumerate(stalls):
+        for shape in (['ok', 'stall', 'ok', 'ok', 'stall', 'ok'], ['stall', 'ok', 'okc', 'ok', 'stall'],
+                      ['okc', 'ok', 'stall', 'okclose', 'ok', 'stall', 'ok']):
+            exs = []
+            for k, what in enumerate(shape):
+                if what == 'stall':
+                    m, data, eof = sm, sm.message[:cut], False
+                else:
+                    m = {'ok': (ok1, ok2)[k % 2], 'okc': okc, 'okclose': okclose}[what]
+                    data, eof = m.message, m.framing == 'close' or what == 'okc'
+                exs.append({'segs': fakenet.segment(data, [len(m.head)] if k % 2 else []), 'eof': eof, 'method': 'GET',
+                            'version': 'HTTP/1.1', 'path': '/t%d' % k, 'msg': m, 'what': what, 'data': data})
+            plans.append({'stream': 'timeout', 'exchanges': exs})
+    return plans
+
+
+def stream_timeout(ctx, plans, timeout=0.12):
+    lines, metas = [], []
+    for plan in plans:
+        exs = plan['exchanges']
+        for attempt in (1, 3):
+            # a well-formed exchange must never time out; if the machine was so loaded that one
+            # did, repeat the plan once with a 3x longer timeout before calling it a failure
+            results, nconn = H.real_timeout_sequence(exs, timeout * attempt)
+            spurious = any(e['what'] != 'stall' and x.outcome == 'exc' and x.exc == 'NetworkTimedOut'
+                           and not any(p['what'] == 'stall' for p in exs[:i]) for i, (e, x) in enumerate(zip(exs, results)))
+            if not spurious:
+                break
+        case = {'stream': 'timeout', 'exchanges': [{'segs': e['segs'], 'eof': e['eof'], 'method': e['method'], 'version': e['version'],
+                                                    'path': e['path'], 'msg': e['msg'].case(), 'what': e['what'], 'data': e['data']}
+                                                   for e in exs]}
+        stalled_before = False
+        for k, (e, x) in enumerate(zip(exs, results)):
+            m = e['msg']
+            if e['what'] == 'stall':
+                if x.outcome == 'stalled':
+                    ctx.fail('stall-not-detected', 'CloseTimer', case,
+                             'exchange %d: the response stopped after %d bytes, the read timeout (%.2fs) never fired%s'
+                             % (k, len(e['data']), timeout, ' (an earlier exchange on this Connection object was closed or timed out)' if k else ''))
+                    break
+                if x.outcome != 'exc' or x.exc != 'NetworkTimedOut':
+                    ctx.fail('stall-not-detected', 'CloseTimer', case, 'exchange %d: a stalled response ended %s %s' % (k, x.outcome, x.exc))
+                stalled_before = True
+                continue
+            if x.outcome != 'ok' or x.status[1] != m.code or x.body != m.payload:
+                kind = 'timeout-after-reconnect' if (stalled_before and x.outcome == 'exc' and x.exc == 'NetworkTimedOut') else \
+                    'complete-message-error' if x.outcome != 'ok' else 'wrong-body'
+                ctx.fail(kind, 'Connection.connect' if kind == 'timeout-after-reconnect' else 'read_body', case,
+                         'exchange %d: a complete well-formed response ended %s %s (body %r)%s'
+                         % (k, x.outcome, x.exc, x.body, '; an earlier exchange on the same Connection object had timed out' if stalled_before else ''))
+                if x.outcome == 'stalled':
+                    break
+        for e, x in zip(exs, results):
+            lines.append(H.model_line(e['data'], e['eof'], H.sched_of(x.calls), x.declog))
+            metas.append((case, e, x))
+        ctx.case(('timeout', tuple((tuple(e['segs']), e['what']) for e in exs)),
+                 tags=['timeout:plan', 'timeout:connections=%d' % nconn] + ['timeout:' + e['what'] + '=' + (x.outcome if x.outcome != 'exc' else x.exc)
+                                                                          for e, x in zip(exs, results)])
+    for (case, e, x), rep in zip(metas, ctx.model.ask(lines)):
+        # the model knows no clock: its "stalled" is the timeout of the real run
+        want = rep.split(' | ')[0]
+        if want == 'stalled':
+            want = 'exc NetworkTimedOut'
+        x.consumed, x.closed = 0, False
+        real = H.fmt_exchange(x).split(' | ')[0]
+        if want != real:
+            ctx.disagree('timeout', {'exchange': e['path'], 'what': e['what'], 'data': e['data']}, want[:400], real[:400])
+    if plans:
+        ctx.sample({'stream': 'timeout', 'plans': len(plans)})
+
+
 # ------------------------------------------------------------------ corpus / replay
 def load_corpus(ctx, pid='C08'):
     out = []
@@ -527,6 +614,13 @@ def _replay(ctx, case, kind=None, where=None):
             css.append(H.cuts_of(case['segs_b']))
         css += [[], list(range(1, len(data)))]
         stream_decode(ctx, [(m, case['variant'], data, eof, css, tuple(case.get('opts', (True, False))))], True)
+    elif s == 'timeout':
+        exs = []
+        for e in case['exchanges']:
+            e = dict(e)
+            e['msg'] = H.Msg.from_case(e['msg'])
+            exs.append(e)
+        stream_timeout(ctx, [{'stream': 'timeout', 'exchanges': exs}])
     elif s == 'session':
         exs = []
         for e in case['exchanges']:
@@ -722,6 +816,7 @@ def _run(ctx, pid='C08'):
         opts = H.OPTS[1 + (i // 2) % 3] if i % 2 else (True, False)      # half default, the rest spread over the other three
         seqs.append((gen_sequence(srng, opts), opts))
     stream_session(ctx, seqs)
+    stream_timeout(ctx, timeout_cases())
     ctx.note('read_sizes', 'the model replays the logged size of every Connection.read; calls are compared one by one')
 
 
